@@ -484,19 +484,20 @@ def select_histories(ctx, rng, cd, exe, dicts):
         act = rng.randrange(len(ents))
         j = rng.randrange(7)                       # frame: compressed with dictionary j (6: dictionary 0, no ID in the frame)
         used, fid = (0, 0) if j == 6 else (j, ids[j])
-        hist = ents + [ents[act]]
+        loc = rng.random() < 0.4        # round 3 (fix d0ddbff): the current dictionary is LOADED into the context instead of referenced
+        hist = ents + ([] if loc else [ents[act]])
         ent = lambda h: "(%d, %d)" % (0 if h == RAW else ids[h], h)
-        terms.append("v [%s] %s %d" % ("; ".join(ent(h) for h in hist), ent(ents[act]), fid))
+        terms.append("v [%s] %s %s %d" % ("; ".join(ent(h) for h in hist), "true" if loc else "false", ent(ents[act]), fid))
         spec = ",".join("r4" if h == RAW else str(h) for h in ents)
         for mode in ("dctx", "stream"):
-            tl.append("T q%d%s %s:%d:%s %s %s" % (k, mode, mode, act, spec, codec.hx(frames[j]), " ".join(codec.hx(d) for d in D)))
-        cases.append((k, used, xs[used], hist, fid))
+            tl.append("T q%d%s %s%s:%d:%s %s %s" % (k, mode, "l" if loc else "", mode, act, spec, codec.hx(frames[j]), " ".join(codec.hx(d) for d in D)))
+        cases.append((k, used, xs[used], hist, fid, loc))
     wd = os.path.join(core.BUILD, "wip", "c08-select-%d-%d" % (os.getpid(), ctx.seed))
     os.makedirs(wd, exist_ok=True)
     with open(os.path.join(wd, "Sel.v"), "w") as f:
         f.write("From Coq Require Import NArith List.\nFrom ZV.Safety Require Import DDictHashSet.\nFrom ZV.Codec Require Import C08Select.\n"
                 "Import ListNotations.\nLocal Open Scope N_scope.\n"
-                "Definition v (l : list (N * N)) (a : N * N) (fid : N) := match add_all xxh_hash next_fixed l create with HOk s => Some (select xxh_hash s a fid) | _ => None end.\n"
+                "Definition v (l : list (N * N)) (loc : bool) (a : N * N) (fid : N) := match add_all xxh_hash next_fixed l create with HOk s => Some (select_cur xxh_hash s loc a fid) | _ => None end.\n"
                 "Eval vm_compute in [%s].\n" % ";\n ".join(terms))
     rc, o, e = core.sh(["timeout", "900", "coqc", "-Q", core.COQ, "ZV", "Sel.v"], cwd=wd)
     shutil.rmtree(wd, ignore_errors=True)
@@ -505,7 +506,7 @@ def select_histories(ctx, rng, cd, exe, dicts):
         ctx.violation(dict(kind="model-eval", detail=(o + e)[-1500:]), what="coqc could not evaluate C08Select.select on the generated histories (%d of %d)" % (len(verd), len(cases)), no_input=True)
         return
     tout, terrs = codec._run_chunks(exe, tl, core.NCPU, 1200)
-    for (k, used, x, hist, fid), vd in zip(cases, verd):
+    for (k, used, x, hist, fid, loc), vd in zip(cases, verd):
         for mode in ("dctx", "stream"):
             r = codec.parse_ok(tout.get("q%d%s" % (k, mode), "ERR missing"))
             line = [l for l in tl if l.split(" ")[1] == "q%d%s" % (k, mode)][0]
@@ -519,8 +520,9 @@ def select_histories(ctx, rng, cd, exe, dicts):
             if not okk:
                 ctx.violation(dict(kind="api", variant="o1", line=line, model=exp, impl=(r[1] if r[0] == "ERR" else ("right bytes" if good else "other bytes")),
                                    **({"expect_hex": x.hex()} if vd[0] != "" and int(vd[1]) == used else {"result": "accepted"} if vd[2] == "Refuse" else {})),
-                              what="multi-DDict selection differs from the model C08Select.select: history %s, frame dictID %d: model %s, libzstd (%s) %s" % (
-                                  hist, fid, exp, mode, r[1] if r[0] == "ERR" else ("right bytes" if good else "other bytes")), key="C08-multiddict-id0-entry-matches-any-id")
+                              what="multi-DDict selection differs from the model C08Select.select_cur: history %s, frame dictID %d: model %s, libzstd (%s) %s" % (
+                                  hist, fid, exp, mode, r[1] if r[0] == "ERR" else ("right bytes" if good else "other bytes")) + (" [current dictionary loaded into the context]" if loc else ""),
+                              key="C08-select-loaded-dictionary-replaced" if loc else "C08-multiddict-id0-entry-matches-any-id")
         ctx.count(("select-history", len(hist), fid, vd[2] or vd[1]), nontrivial=True)
     ctx.notes["select_histories"] = len(cases)
 
@@ -569,6 +571,50 @@ def reuse_histories(ctx, variants=("o1", "asan")):
         core.log("c08 reuse histories: %s %d scenarios %.1fs" % (variant, n, time.time() - t0))
         ctx.count(("reuse-histories", variant), nontrivial=True, n=n)
     ctx.notes["reuse_history_frames"] = total
+
+
+def reuse_histories_R(ctx, cd):
+    """frames of the call histories through the extracted reference decoder R (strict: offsets beyond the window are format errors,
+    a dictionary may only be reached while the window still touches it)"""
+    exe = core.build_harness("c08_hist", ["c08_hist.c"], variant="o1", extra_flags=["-w"])
+    first = ctx.seed * 10000000 + 9000000
+    lines = ["P p%d %d" % (k, first + k) for k in range(16 if ctx.quick else 2500)]
+    out, errs = codec._run_chunks(exe, lines, core.NCPU, 2400)
+    cases, want, stricter = [], {}, 0
+    for l in lines:
+        i = l.split(" ")[1]
+        t = out.get(i, "").split(" ")
+        if len(t) < 2 or t[0] != "OK":
+            continue        # failures of the scenario itself are reported by reuse_histories on its own seeds; here only frames are collected
+        ds = [bytes.fromhex(x.split(":", 1)[1]) if x.split(":", 1)[1] != "-" else b"" for x in t[1:4]]
+        for j, fr in enumerate(t[4:]):
+            _, kind, di, fh, xh = fr.split(":")
+            kind, di = int(kind), int(di)
+            d = ds[di] if kind else None
+            if (kind and not d) or (ctx.quick and (len(xh) > 24000 or (d and len(d) > 12000))):
+                continue
+            cid = "%s_%d" % (i, j)
+            cases.append((cid, "rawdict" if kind == 1 else "", d, bytes.fromhex(fh)))
+            want[cid] = (bytes.fromhex(xh) if xh != "-" else b"", int(l.split(" ")[2]), kind)
+    if not cases:
+        return
+    res = cd.model(cases)
+    for cid, (x, seed, kind) in want.items():
+        m = res.get(cid)
+        if m is None:
+            continue
+        if m[0] == "ERR" and m[1] == "dict":
+            stricter += 1          # R's dictionary loader is stricter than libzstd's (Huffman depth 12): no verdict
+            continue
+        if m[0] != "OK" or m[1] != x:
+            fb = [c for c in cases if c[0] == cid][0]
+            ctx.violation(dict(kind="hist-R", variant="o1", seed=seed, frame_hex=fb[3].hex()[:60000], dict_hex=(fb[2] or b"").hex()[:140000], flags=fb[1],
+                               result=("R: ERR %s site %s" % (m[1], m[2])) if m[0] == "ERR" else "R decodes other bytes"),
+                          what="a frame of a call history (scenario %d) is not decoded to its input by the reference decoder R: %s" % (
+                              seed, ("ERR %s site %s" % (m[1], m[2])) if m[0] == "ERR" else "other bytes"), key="C08-hist-R")
+        ctx.count(("hist-R", kind, m[0], codec.trace_signature(codec.parse_trace(m[2])) if m[0] == "OK" else m[1]), nontrivial=True)
+        ctx.cov["traces_validated_against_impl"] += 1
+    ctx.notes["reuse_history_frames_through_R"] = len(want)
 
 
 def hist_replay(ctx, rp):
@@ -698,8 +744,52 @@ def unit_tie(ctx, rng, dicts, verdict):
         terms.append((i, "(let r := select %d %s %d %s %s %s in [et (fst r); rm (snd r); bn (cost_ok %s %s)])" % (
             strat, "true" if da == "1" else "false", dnl, ("RNone", "RCheck", "RValid")[mode], tab, blk, tab, used)))
         expect[i] = [int(typ), int(nm), 0 if tbl == "E" else 1]
-    if errs1 or errs2 or errs3:
-        e = (errs1 + errs2 + errs3)[0]
+    # W : the window of a context with an attached CDict, segment after segment (C08Window), block mode and frame mode
+    wlines, winfo = [], {}
+    for k in range(40 if q else 1200):
+        mode = rng.randrange(2)
+        wl = rng.choice([10, 11, 12, 14, 17])
+        dcs = rng.choice([9, 100, 1000, 5000, 40000])
+        reuse = rng.choice([0, 0, 0, 500, 60000])
+        segs, off, ln = [], None, 0
+        for _ in range(rng.randint(1, 9)):
+            nl = rng.choice([0, 1, 7, 8, 9, 100, 700, 1024]) if mode == 0 else rng.choice([0, 1, 8, 100, 1000, 5000, 20000])
+            r = rng.random()
+            if off is None or r < 0.3:
+                no = rng.randrange(0, (4 << 20) - 30000)
+            elif r < 0.65:
+                no = off + ln                                   # contiguous
+            else:
+                no = max(0, off + rng.randint(-nl, ln))         # overlapping the previous segment
+            no = min(no, (4 << 20) - 30000)
+            segs.append((no, nl))
+            off, ln = no, nl
+        i = "w%d" % k
+        wlines.append("W %s %d %d %d %d %d %s" % (i, mode, rng.choice([1, 2, 3, 4, 5, 7]), wl, dcs, reuse, ",".join("%d:%d" % sg for sg in segs)))
+        winfo[i] = (mode, segs)
+    out4, errs4 = codec._run_chunks(exe, wlines, core.NCPU, 1200)
+    wterms, wexpect = [], []
+    for i, (mode, segs) in winfo.items():
+        r = out4.get(i, "ERR missing").split(" ")
+        if r[0] != "OK":
+            continue
+        bsz, md = int(r[1]), int(r[2])
+        states = [[int(v) for v in t.split(":")] for t in r[3:] if t != "ERR"]
+        s0 = states[0]
+        if not (s0[2] == s0[3] == s0[5] and s0[4] - s0[0] == s0[2] and s0[6] == 1):
+            ctx.violation(dict(kind="unit", line=[l for l in wlines if l.split(" ")[1] == i][0], impl=s0), what="state after ZSTD_compressBegin_usingCDict is not the attached shape: %s" % s0, key="C08-unit-tie-w")
+            continue
+        segs = segs[:len(states) - 1]
+        init = "(mk (%d) (%d) (%d) (%d) (%d) (%d) true)" % tuple(s0[:6])
+        if mode == 0:
+            wterms.append("scan (%d) (block_step true) %s [%s]" % (md, init, "; ".join("((%d), (%d), false)" % sg for sg in segs)))
+        else:
+            def cuts(n):
+                return [bsz] * (n // bsz) + ([n % bsz] if n % bsz else [])
+            wterms.append("scan (%d) (frame_step (%d)) %s [%s]" % (md, md, init, "; ".join("((%d), (%d), false, [%s])" % (o, n, "; ".join("(%d)" % c for c in cuts(n))) for o, n in segs)))
+        wexpect.append((i, states[1:]))
+    if errs1 or errs2 or errs3 or errs4:
+        e = (errs1 + errs2 + errs3 + errs4)[0]
         ctx.violation(dict(kind="unit-crash", detail=e[1][-1500:]), what="c08_unit crashed: %s" % e[1][-300:].replace("\n", " "), no_input=True)
     # ---- the model's answers ----
     wd = os.path.join(core.BUILD, "wip", "c08-unit-%d-%d" % (os.getpid(), ctx.seed))
@@ -710,8 +800,18 @@ def unit_tie(ctx, rng, dicts, verdict):
                 "Definition et (e : etype) : N := match e with Basic => 0 | Rle => 1 | Compressed => 2 | Repeat => 3 end.\n"
                 "Definition bn (b : bool) : N := if b then 1 else 0.\n"
                 "Eval vm_compute in [%s].\n" % ";\n ".join(t for _, t in terms))
+        f.write("From ZV.Codec Require Import C08Window.\nLocal Open Scope Z_scope.\n"
+                "Definition stl (md : Z) (s : st) : list Z := [base (w s); dictBase (w s); dictLimit (w s); lowLimit (w s); nextSrc (w s); lde s; (if dms s then 1 else 0); lowest_match_index s (nextSrc (w s) - base (w s)) md].\n"
+                "Definition mk (b db dl ll ns l : Z) (d : bool) : st := {| w := {| base := b; dictBase := db; dictLimit := dl; lowLimit := ll; nextSrc := ns |}; lde := l; dms := d; total := 0 |}.\n"
+                "Fixpoint scan {A : Type} (md : Z) (f : st -> A -> st) (s : st) (l : list A) : list (list Z) := match l with [] => [] | x :: r => let s' := f s x in stl md s' :: scan md f s' r end.\n"
+                "Eval vm_compute in [%s].\n" % ";\n ".join(wterms or ["[]"]))
     rc, o, e = core.sh(["timeout", "900", "coqc", "-Q", core.COQ, "ZV", "Unit.v"], cwd=wd)
     shutil.rmtree(wd, ignore_errors=True)
+    zbody = ""
+    if rc == 0 and ": list (list N)" in o and ": list (list (list Z))" in o:
+        zbody = o[o.index(": list (list N)"):o.rindex(": list (list (list Z))")]
+        o = o[:o.index(": list (list N)") + 20]
+    wmodel = [[int(v) for v in re.findall(r"-?\d+", part)] for part in re.findall(r"\[([^\[\]]*\d[^\[\]]*)\]", zbody)]
     body = o[o.index("= [") + 2:o.rindex(": list (list N)")] if rc == 0 and ": list (list N)" in o else ""
     model = [[int(v) for v in re.findall(r"\d+", part)] for part in re.findall(r"\[([^\[\]]*)\]", body)]
     if len(model) != len(terms):
@@ -746,7 +846,25 @@ def unit_tie(ctx, rng, dicts, verdict):
                 ctx.violation(dict(kind="unit", line=line[:4000], model=mv, impl=got, term=term[:3000]),
                               what="unit tie: %s differs from the Gallina model: libzstd %s, model %s (line %s)" % (what, got, mv, line[:200]), key="C08-unit-tie-" + i[0])
         ctx.count(("unit", i[0], tuple(mv)), nontrivial=True)
-    ctx.notes["unit_tie_cases"] = {"dictNCountRepeat": sum(1 for i, _ in terms if i[0] == "n"), "attach": sum(1 for i, _ in terms if i[0] == "a"),
+    # the window states, call after call
+    need = sum(len(st) for _, st in wexpect)
+    if len(wmodel) != need:
+        ctx.violation(dict(kind="model-eval", detail=(zbody or e)[-1500:]), what="coqc could not evaluate the C08Window model on the generated segment histories (%d states of %d)" % (len(wmodel), need), no_input=True)
+    else:
+        pos = 0
+        for i, states in wexpect:
+            mv = wmodel[pos:pos + len(states)]
+            pos += len(states)
+            if mv != states:
+                nbad += 1
+                j = next(j for j in range(len(states)) if mv[j] != states[j])
+                line = [l for l in wlines if l.split(" ")[1] == i][0]
+                if nbad <= 5:
+                    ctx.violation(dict(kind="unit", line=line, model=mv[j], impl=states[j], call=j),
+                                  what="unit tie: window / loadedDictEnd / dictMatchState after call %d differ from the Gallina model C08Window: libzstd %s, model %s (base:dictBase:dictLimit:lowLimit:nextSrc:loadedDictEnd:attached:lowestMatchIndex; line %s)" % (
+                                      j, states[j], mv[j], line[:300]), key="C08-unit-tie-w")
+            ctx.count(("unit", "w", winfo[i][0], len(states), tuple(st[6] for st in states), tuple(st[7] == st[3] for st in states)), nontrivial=True)
+    ctx.notes["unit_tie_cases"] = {"window_histories": len(wexpect), "window_states": need, "dictNCountRepeat": sum(1 for i, _ in terms if i[0] == "n"), "attach": sum(1 for i, _ in terms if i[0] == "a"),
                                    "loadCEntropy": sum(1 for i, _ in terms if i[0] == "e"), "selectEncodingType": sum(1 for i, _ in terms if i[0] == "s")}
     ctx.cov["traces_validated_against_impl"] += len(terms)
 
@@ -990,6 +1108,7 @@ def run(ctx):
     api_surface(ctx, random.Random(ctx.seed * 7919 + 5), cd, dicts, verdict)
     unit_tie(ctx, random.Random(ctx.seed * 104729 + 11), dicts, verdict)
     reuse_histories(ctx)
+    reuse_histories_R(ctx, cd)
     ctx.sample(dict(dictionary=dicts[-1][0], dict_hex=dicts[-1][1].hex()[:300]))
     if cases:
         ctx.sample(dict(entry=cases[0]["entry"], dictmode=cases[0]["dictmode"], params=cases[0]["params"], dict=dicts[cases[0]["di"]][0]))
